@@ -84,6 +84,7 @@ type FuncContract struct {
 	Trusted   bool // contract is assumed, body not verified (listed in evidence)
 	Pure      bool
 	GhostArgs []string
+	Uses      []string // explicit axiom groups (smt[name!]) this function's proofs need
 	File      string
 	Line      int
 }
@@ -137,7 +138,7 @@ func NewContractSet() *ContractSet {
 }
 
 var topKeywords = map[string]bool{"defpred": true, "smt": true, "ghostfield": true, "const": true, "pred": true, "specfunc": true, "axiom": true, "lemma": true, "func": true, "closure": true}
-var clauseKeywords = map[string]bool{"requires": true, "ensures": true, "modifies": true, "overflow": true, "loop": true, "ghost": true, "let": true, "trusted": true, "pure": true, "ghostargs": true, "dead": true, "lemmafunc": true}
+var clauseKeywords = map[string]bool{"uses": true, "requires": true, "ensures": true, "modifies": true, "overflow": true, "loop": true, "ghost": true, "let": true, "trusted": true, "pure": true, "ghostargs": true, "dead": true, "lemmafunc": true}
 
 type rawDirective struct {
 	kw   string
@@ -364,6 +365,8 @@ func (fc *FuncContract) addClause(d *rawDirective, path string) error {
 		fc.Ensures = append(fc.Ensures, c)
 	case "overflow":
 		fc.Overflow = strings.TrimSpace(text) == "checked"
+	case "uses":
+		fc.Uses = append(fc.Uses, strings.Fields(strings.ReplaceAll(text, ",", " "))...)
 	case "trusted":
 		fc.Trusted = true
 	case "pure":
